@@ -11,6 +11,7 @@ of existing services — every recorded trace must be accepted by the model, and
 the monitors corr/C01corr.c01_ok / c01_deadline_ok are evaluated on it."""
 import random
 
+import m4x
 import m5
 import m5lb
 from vlib import *
@@ -262,7 +263,8 @@ def probe_verdicts(o, ptimeouts):
 
 
 def failed_deploy_leaks(o):
-    """After a deploy whose wait failed has returned, none of its targets gets another probe result."""
+    """After a deploy whose wait failed has returned, none of its targets gets another probe result
+    (a result that was already in flight may still be applied at the very instant of the return)."""
     lbs, failed, ret, bad = {}, {}, {}, []
     for e in o["events"]:
         if e["kind"] == "lb-new":
@@ -270,11 +272,11 @@ def failed_deploy_leaks(o):
         elif e["kind"] == "deploy-waited" and not e["args"][1]:
             failed[e["g"]] = e["args"][0]
         elif e["kind"] == "return" and e["g"] in failed:
-            ret[failed[e["g"]]] = e["seq"]
+            ret[failed[e["g"]]] = e["t"]
         elif e["kind"] == "probe-apply":
-            for lb, seq in ret.items():
-                if e["args"][0] in lbs.get(lb, []) and e["seq"] > seq:
-                    bad.append({"seq": e["seq"], "target": e["args"][0], "lb": lb})
+            for lb, t_ret in ret.items():
+                if e["args"][0] in lbs.get(lb, []) and e["t"] > t_ret:
+                    bad.append({"seq": e["seq"], "t": e["t"], "target": e["args"][0], "lb": lb})
     return bad
 
 
@@ -354,61 +356,73 @@ def run(tier, seed):
         rand = m5lb.random_scenarios(rnd, n_random, PROFILES, 8, 25)
         scenarios += rand
         metas += [None] * len(rand)
-        harness_ok, gout, outs = m5.run_scenarios(work, scenarios)
-        rows, doct = [], {}
-        if harness_ok and ok:
-            expr = ("fun tr => (reject_at tr, c01_fail_at tr, c01_deadline_fail_at true tr, c01_deadline_fail_at false tr, "
-                    "c01_counts tr)")
-            rows = m5lb.coq_eval_traces(work, m5lb.IMPORTS, outs, expr, "C01", shard=5)
-            # doctored copies of one real trace must be rejected
-            src = next((o for o in outs if sum(1 for e in o["events"] if e["kind"] == "claim") >= 2 and
-                        any(e["kind"] == "lb-new" and len(e["args"][1]) >= 2 for e in o["events"])), None)
-            if src is not None:
-                d = doctored(src["events"])
-                names = [k for k, v in d.items() if v is not None]
-                if names:
-                    terms = [m5.trace_term(d[k]) for k in names]
-                    import m4x
-                    acc = m4x.coq_map(work, m5lb.IMPORTS_MODEL, "", terms, "fun tr => accepted tr", "C01doc", shard=3)
-                    doct = dict(zip(names, acc))
-        # ---- judge
-        rejected, mon_fail, e2e = [], [], []
-        claims = waits_ok = waits_fail = lbs = 0
-        for j, r in enumerate(rows):
-            rej, mon, dl_strict, dl_weak, cnt = r
-            claims += cnt[0]
-            waits_ok += cnt[1]
-            waits_fail += cnt[2]
-            lbs += cnt[3]
-            strict = metas[j] is not None and metas[j]["strict"]
-            dl = dl_strict if strict else dl_weak
-            if mon is not None:
-                mon_fail.append((j, "c01_ok", mon[1]))
-            elif dl is not None:
-                mon_fail.append((j, "c01_deadline_ok", dl[1]))
-            if rej is not None:
-                rejected.append((j, rej[1]))
-        for j, o in enumerate(outs):
-            pt = {}
-            if metas[j] is not None:
-                for d in metas[j]["deploys"]:
-                    for t in d["targets"]:
-                        pt[t] = d["ptimeout"]
-            else:
-                for st in scenarios[j]["steps"]:
-                    if st.get("op") == "deploy":
-                        for t in st["targets"]:
-                            pt[bytes.fromhex(t["name"]).decode()] = st["topts"]["timeout"]
-            pv = probe_verdicts(o, pt) if metas[j] is not None else []
-            if pv:
-                e2e.append((j, "a probe was counted as %s although the target answered '%s'" %
-                            ("success" if pv[0]["applied_ok"] else "failure", pv[0]["outcome"]), pv[:3]))
-            lk = failed_deploy_leaks(o)
-            if lk:
-                e2e.append((j, "a target of a failed deploy is still probed after the command returned", lk[:3]))
-            sb = served_by_claimed(o)
-            if sb:
-                e2e.append((j, "a request was served by a target other than the one that claimed it", sb[:3]))
+        def evaluate(scenarios, metas, tag, self_test):
+            """Run, replay through acceptor and monitors, judge.  Returns a dict."""
+            harness_ok, gout, outs = m5.run_scenarios(work, scenarios)
+            rows, doct = [], {}
+            if harness_ok and ok:
+                expr = ("fun tr => (reject_at tr, c01_fail_at tr, c01_deadline_fail_at true tr, c01_deadline_fail_at false tr, "
+                        "c01_counts tr)")
+                rows = m5lb.coq_eval_traces(work, m5lb.IMPORTS, outs, expr, tag, shard=5)
+                # doctored copies of one real trace must be rejected
+                src = next((o for o in outs if sum(1 for e in o["events"] if e["kind"] == "claim") >= 2 and
+                            any(e["kind"] == "lb-new" and len(e["args"][1]) >= 2 for e in o["events"])), None) if self_test else None
+                if src is not None:
+                    d = doctored(src["events"])
+                    names = [k for k, v in d.items() if v is not None]
+                    if names:
+                        terms = [m5.trace_term(d[k]) for k in names]
+                        acc = m4x.coq_map(work, m5lb.IMPORTS_MODEL, "", terms, "fun tr => accepted tr", tag + "doc", shard=3)
+                        doct = dict(zip(names, acc))
+            rejected, mon_fail, e2e = [], [], []
+            cnts = [0, 0, 0, 0]
+            for j, r in enumerate(rows):
+                rej, mon, dl_strict, dl_weak, cnt = r
+                for q in range(4):
+                    cnts[q] += cnt[q]
+                strict = metas[j] is not None and metas[j]["strict"]
+                dl = dl_strict if strict else dl_weak
+                if mon is not None:
+                    mon_fail.append((j, "c01_ok", mon[1]))
+                elif dl is not None:
+                    mon_fail.append((j, "c01_deadline_ok", dl[1]))
+                if rej is not None:
+                    rejected.append((j, rej[1]))
+            for j, o in enumerate(outs):
+                pt = {}
+                if metas[j] is not None:
+                    for d in metas[j]["deploys"]:
+                        for t in d["targets"]:
+                            pt[t] = d["ptimeout"]
+                pv = probe_verdicts(o, pt) if metas[j] is not None else []
+                if pv:
+                    e2e.append((j, "a probe was counted as %s although the target answered '%s'" %
+                                ("success" if pv[0]["applied_ok"] else "failure", pv[0]["outcome"]), pv[:3]))
+                lk = failed_deploy_leaks(o)
+                if lk:
+                    e2e.append((j, "a target of a failed deploy is still probed after the command returned", lk[:3]))
+                sb = served_by_claimed(o)
+                if sb:
+                    e2e.append((j, "a request was served by a target other than the one that claimed it", sb[:3]))
+            return {"harness_ok": harness_ok, "gout": gout, "outs": outs, "rows": rows, "doct": doct, "rejected": rejected,
+                    "mon_fail": mon_fail, "e2e": e2e, "cnts": cnts, "scenarios": scenarios, "metas": metas}
+
+        ev = evaluate(scenarios, metas, "C01", True)
+        searched = 0
+        if ev["rejected"] and not ev["mon_fail"] and not ev["e2e"]:
+            # the model rejects a trace but no monitor fails on it: look for a failing input among more scenarios of the same shapes
+            rshapes = [metas[j]["shape"] for j, _ in ev["rejected"] if metas[j] is not None] or shapes[:8]
+            rnd2 = random.Random(seed * 7919 + 1)
+            sm2 = [gen_scenario(rnd2, rshapes[i % len(rshapes)]) for i in range(32 if tier == "quick" else 200)]
+            ev2 = evaluate([x for x, _ in sm2], [m for _, m in sm2], "C01s", False)
+            searched = len(sm2)
+            if ev2["mon_fail"] or ev2["e2e"]:
+                ev2["doct"] = ev["doct"]
+                ev = ev2
+        harness_ok, gout, outs, rows, doct = ev["harness_ok"], ev["gout"], ev["outs"], ev["rows"], ev["doct"]
+        rejected, mon_fail, e2e = ev["rejected"], ev["mon_fail"], ev["e2e"]
+        scenarios, metas = ev["scenarios"], ev["metas"]
+        claims, waits_ok, waits_fail, lbs = ev["cnts"]
         results = {}
         status = {}
         tags = {}
@@ -444,7 +458,8 @@ def run(tier, seed):
             "samples": [{"scenario_steps": [{k: v for k, v in st.items() if k in ("op", "id", "ns", "point", "deploy_timeout", "targets")}
                                             for st in scenarios[0]["steps"][:14]]}] if scenarios else [],
             "correspondence": {"traces": len(rows), "rejected_by_acceptor": len(rejected), "monitor_failures": len(mon_fail),
-                               "end_to_end_failures": len(e2e), "doctored_traces_accepted": {k: v for k, v in doct.items()}},
+                               "end_to_end_failures": len(e2e), "doctored_traces_accepted": {k: v for k, v in doct.items()},
+                               "extra_scenarios_searched_after_a_rejection": searched},
         })
         res.assumptions = [
             "model/M5lb.v is hand-written; it is tied to router.go / service.go / load_balancer.go / target.go / health_check.go only by "
